@@ -94,7 +94,8 @@ TickTags ==
           THEN {<<"C02", "overstays">>, <<"C17", "phase-never-ends">>, <<"C01", "curve-not-completed-in-time">>} ELSE {})
   \cup (IF phase \in Timed /\ same /\ d <= 0 THEN {<<"C17", "no-progress">>} ELSE {})
   \cup (IF phase \in Timed /\ ~same /\ acc + hi < M THEN {<<"C02", "leaves-early">>} ELSE {})
-  \cup (IF phase \in Timed /\ ~same /\ acc' # 0 THEN {<<"C02", "phase-start-position">>} ELSE {})
+  \* (a timed phase starts at position 0; what the counter holds while sustaining or at rest is not specified)
+  \cup (IF phase \in Timed /\ ~same /\ phase' \in Timed /\ acc' # 0 THEN {<<"C02", "phase-start-position">>} ELSE {})
   \cup (IF phase \notin Timed /\ acc' # acc THEN {<<"C02", "position-moves-untimed">>} ELSE {})
   \cup RangeTags
   \cup (IF phase = "attack" /\ phase' = "decay" /\ e.k # KeyOne THEN {<<"C01", "attack-end-level">>} ELSE {})
